@@ -33,9 +33,9 @@ def run_check(pid, tier, root, quiet=False):
         if tier == 'thorough':
             if hasattr(pm, 'run_thorough'):
                 pm.run_thorough(rep)
-            if not any(not o.ok for o in rep.obligations if (o.rule, o.key) not in
-                       set((k['rule'], k['key']) for k in __import__('vt.core', fromlist=['x']).load_known().get('known', [])
-                           if k['property'] == pid)):
+            from .core import is_known, known_set
+            _kt = known_set(pid)
+            if not any(not o.ok for o in rep.obligations if not is_known(pid, o.rule, o.key, _kt)):
                 # self-validation of the rules of this property on scratch copies (evidence about the checker;
                 # the verdict below is about /repo only)
                 from . import selftest
